@@ -95,16 +95,17 @@ Proof. exact delete_group_topic_removed. Qed.
 Print Assumptions C09_delete_group_topic_removed.
 
 (* (the cluster / other-group / topic part of the frame is C09_delete_group_frame.)
-   Group lists: g stays listed iff it consumes another topic — what the code does: a group left without topics by a
-   delete-group-topic is dropped, also when t was not one of its topics and it had none; every other group is listed as
-   before; for another topic t' the consumer list is unchanged, for t it loses exactly g. *)
+   Group lists: g stays listed unless t was its one and only topic (the group goes with its last topic); a topic the group
+   does not consume is nothing to delete (C09_delete_foreign_topic_changes_nothing); every other group is listed as before;
+   for another topic t' the consumer list is unchanged, for t it loses exactly g. *)
 Theorem C09_delete_group_topic_listing :
   forall cf now now' s c g t,
     wf_state s -> t <> 0 ->
     let s' := after cf now s (DeleteGroup c g t) in
     (obs cf now' s' (FetchConsumers c) = Some RNil <-> obs cf now' s (FetchConsumers c) = Some RNil) /\
     (forall x, In x (names (obs cf now' s' (FetchConsumers c))) <->
-               In x (names (obs cf now' s (FetchConsumers c))) /\ (x = g -> has_other_topic s c g t)) /\
+               In x (names (obs cf now' s (FetchConsumers c))) /\
+               (x = g -> has_other_topic s c g t \/ absent_group_topic s c g t)) /\
     (forall t',
        (obs cf now' s' (FetchConsumersForTopic c t') = Some RNil <-> obs cf now' s (FetchConsumersForTopic c t') = Some RNil) /\
        (forall x, In x (names (obs cf now' s' (FetchConsumersForTopic c t'))) <->
@@ -113,13 +114,13 @@ Proof. exact delete_group_topic_listing. Qed.
 Print Assumptions C09_delete_group_topic_listing.
 
 (* the remaining topics of g — every partition, offset window, owner and lag — are reported exactly as before
-   ([remove l t] drops the entry of t from the detail and nothing else); no topic left => not found *)
+   ([remove l t] drops the entry of t from the detail and nothing else); [drops l t]: t was the only topic => not found *)
 Theorem C09_delete_group_topic_detail :
   forall cf now now' s c g t,
     t <> 0 ->
     let s' := after cf now s (DeleteGroup c g t) in
     (forall l, obs cf now' s (FetchConsumer c g) = Some (RConsumer l) ->
-       obs cf now' s' (FetchConsumer c g) = if is_nil (remove l t) then Some RNil else Some (RConsumer (remove l t))) /\
+       obs cf now' s' (FetchConsumer c g) = if drops l t then Some RNil else Some (RConsumer (remove l t))) /\
     (obs cf now' s (FetchConsumer c g) = Some RNil -> obs cf now' s' (FetchConsumer c g) = Some RNil).
 Proof. exact delete_group_topic_detail. Qed.
 Print Assumptions C09_delete_group_topic_detail.
@@ -215,71 +216,82 @@ Proof. exact old_commit_ignored. Qed.
 Print Assumptions C09_old_commit_ignored.
 
 (* ---------------------------------------------------------------------------------------------- *)
-(* where the code is NOT exact — recorded known findings of C09 (key in known_findings.json)        *)
+(* exactness of expiry and of delete-group-topic (two defects found by audit A, repaired in /repo;    *)
+(* the model describes the repaired code; the old behaviour is kept as *_before_fix documentation)    *)
 (* ---------------------------------------------------------------------------------------------- *)
 
-(* [C09:lastcommit-not-monotone]  FULL statement (the converse "an expiry removes only expired groups"), FALSE for the code:
-     forall reachable s, in_i64 ((now - expire) * 1000) -> get s c = Some cl -> get (cl_consumer cl) g = Some grp ->
-       obs cf now s (FetchConsumer c g) = Some RNil -> forall ts, In ts (stored_ts grp) -> ts < (now - expire) * 1000.
-   consumerGroup.lastCommit is overwritten by every appended commit of any partition and so can move backwards.
-   Witness (replayed on the real code, see findings/C09.json): expire-group 1000 s; at 2000 s partition 0 commits with
-   timestamp 1 900 000, then partition 1 gets its first commit with timestamp 1 100 000; at 2200 s (cut-off 1 200 000) the
-   group is reported not found and is unlisted although it stores a commit that is 300 s old. *)
-Theorem C09_not_expired_but_purged_refuted :
-  exists cf cls h s reps now c g cl grp ts,
-    NoDup cls /\ run cf (init_state cls) h = Some (s, reps) /\ in_i64 ((now - cf_expire cf) * 1000) /\
-    get s c = Some cl /\ get (cl_consumer cl) g = Some grp /\
-    In ts (stored_ts grp) /\ ~ ts < (now - cf_expire cf) * 1000 /\
-    obs cf now s (FetchConsumer c g) = Some RNil /\
-    ~ In g (names (obs cf now (after cf now s (FetchConsumer c g)) (FetchConsumers c))).
-Proof. exact not_expired_but_purged_refuted. Qed.
-Print Assumptions C09_not_expired_but_purged_refuted.
-
-(* what IS proved (the guard that excludes the finding: the MOST RECENTLY APPENDED commit instead of the newest one):
-   a group is answered not-found exactly when g_last is older than the cut-off, and g_last is, after every commit, either that
-   commit's timestamp (it was appended) or what it was before; nothing but a commit changes it (owner updates, clears and
-   deletions keep the field: Storage.add_consumer_owner / clear_owners_group / delete_topic / delete_group by definition). *)
-Theorem C09_purged_iff_last_appended_expired_partial :
-  forall cf now s c g cl grp,
-    in_i64 ((now - cf_expire cf) * 1000) ->
-    get s c = Some cl -> get (cl_consumer cl) g = Some grp ->
-    (obs cf now s (FetchConsumer c g) = Some RNil <-> g_last grp < (now - cf_expire cf) * 1000).
-Proof. exact purged_iff_last_appended_expired. Qed.
-Print Assumptions C09_purged_iff_last_appended_expired_partial.
-
+(* lastCommit (g_last) is the largest timestamp among the commits the group has stored: a commit the ring stores raises it to
+   max(ts, g_last), whichever partition and ring position it lands in; nothing else changes it; it never decreases. *)
 Theorem C09_g_last_after_commit :
   forall cf now s c g t p off order ts s' rep cl' grp',
     step cf now s (SetConsumerOffset c g t p off order ts) = Done s' rep ->
     get s' c = Some cl' -> get (cl_consumer cl') g = Some grp' ->
-    g_last grp' = ts \/ exists cl, get s c = Some cl /\ g_last grp' = g_last (grp_or_empty cl g).
+    exists cl, get s c = Some cl /\
+      (g_last grp' = Z.max ts (g_last (grp_or_empty cl g)) \/ g_last grp' = g_last (grp_or_empty cl g)).
 Proof. exact g_last_after_commit. Qed.
 Print Assumptions C09_g_last_after_commit.
 
-(* [C09:empty-group-foreign-topic-delete]  FULL statement ("deleting what does not exist changes nothing"), FALSE for the code:
-     forall reachable s, t <> 0 -> get (g_topics grp) t = None ->
-       forall x, In x (names (obs .. (after .. (DeleteGroup c g t)) (FetchConsumers c))) <-> In x (names (obs .. s (FetchConsumers c))).
-   Witness: an owner update for a topic the brokers do not know creates a group without topics; delete-group-topic for a topic it
-   never had drops it from the consumer list. *)
-Theorem C09_delete_foreign_topic_unlists_group_refuted :
-  exists cf cls h s reps now c g t cl grp,
-    NoDup cls /\ run cf (init_state cls) h = Some (s, reps) /\ t <> 0 /\
-    get s c = Some cl /\ get (cl_consumer cl) g = Some grp /\ get (g_topics grp) t = None /\
-    In g (names (obs cf now s (FetchConsumers c))) /\
-    ~ In g (names (obs cf now (after cf now s (DeleteGroup c g t)) (FetchConsumers c))).
-Proof. exact delete_foreign_topic_unlists_group_refuted. Qed.
-Print Assumptions C09_delete_foreign_topic_unlists_group_refuted.
+Theorem C09_g_last_monotone :
+  forall cf now s r s' rep c g cl grp cl' grp',
+    step cf now s r = Done s' rep ->
+    get s c = Some cl -> get (cl_consumer cl) g = Some grp ->
+    get s' c = Some cl' -> get (cl_consumer cl') g = Some grp' ->
+    g_last grp <= g_last grp'.
+Proof. exact g_last_monotone. Qed.
+Print Assumptions C09_g_last_monotone.
 
-(* proved with the guard that excludes the finding (the group has at least one topic); C09_delete_group_topic_listing states
-   the general case exactly as the code behaves *)
-Theorem C09_delete_foreign_topic_keeps_nonempty_group_partial :
-  forall cf now now' s c g t cl grp,
-    wf_state s -> t <> 0 ->
-    get s c = Some cl -> get (cl_consumer cl) g = Some grp -> get (g_topics grp) t = None -> g_topics grp <> [] ->
+(* FULL statement aimed at: not-found  <->  the newest commit the group has stored is older than the cut-off.
+   Proved: not-found <-> g_last < cut-off (inside the int64 guard), with g_last characterised step by step by the two theorems
+   above (and over histories by StorageWindows.h_ginfo, props/C02.v).  NOT proved here (hence _partial): the state invariant
+   "every timestamp in stored_ts grp is <= g_last grp", which would restate the right-hand side as "every stored commit is
+   older than the cut-off"; the converse of that restatement is false by design (a commit merged into its predecessor keeps
+   the predecessor's timestamp in the ring while raising lastCommit, and ring eviction forgets old commits). *)
+Theorem C09_purged_iff_newest_commit_expired_partial :
+  forall cf now s c g cl grp,
+    in_i64 ((now - cf_expire cf) * 1000) ->
+    get s c = Some cl -> get (cl_consumer cl) g = Some grp ->
+    (obs cf now s (FetchConsumer c g) = Some RNil <-> g_last grp < (now - cf_expire cf) * 1000).
+Proof. exact purged_iff_last_expired. Qed.
+Print Assumptions C09_purged_iff_newest_commit_expired_partial.
+
+(* documentation of the behaviour before the repair (audit witness, then replayed on the real code): with
+   "lastCommit = timestamp of the last APPENDED commit" the group of lc_hist was purged 700 s early; now g_last = 1 900 000,
+   the group is reported at 2200 s and stays listed *)
+Theorem C09_not_expired_but_purged_before_fix :
+  expired lc_cf 2200 (last_commit_before_fix true 1100000 (last_commit_before_fix true 1900000 0)) = true /\
+  in_i64 ((2200 - cf_expire lc_cf) * 1000) /\
+  run lc_cf (init_state [1]) lc_hist = Some (lc_state, repeat RNone 4) /\
+  (exists cl grp, get lc_state 1 = Some cl /\ get (cl_consumer cl) 1 = Some grp /\
+     In 1900000 (stored_ts grp) /\ ~ 1900000 < (2200 - cf_expire lc_cf) * 1000 /\ g_last grp = 1900000) /\
+  names (obs lc_cf 2200 lc_state (FetchConsumer 1 1)) = [1] /\
+  In 1 (names (obs lc_cf 2200 (after lc_cf 2200 lc_state (FetchConsumer 1 1)) (FetchConsumers 1))).
+Proof. exact not_expired_but_purged_before_fix. Qed.
+Print Assumptions C09_not_expired_but_purged_before_fix.
+
+(* deleting what does not exist changes nothing: a delete-group-topic naming a topic the group does not consume leaves the
+   consumer list, the group's detail and every topic's consumer list as they were (with C09_delete_group_frame: everything) *)
+Theorem C09_delete_foreign_topic_changes_nothing :
+  forall cf now now' s c g t,
+    wf_state s -> t <> 0 -> absent_group_topic s c g t ->
     let s' := after cf now s (DeleteGroup c g t) in
     (forall x, In x (names (obs cf now' s' (FetchConsumers c))) <-> In x (names (obs cf now' s (FetchConsumers c)))) /\
-    obs cf now' s' (FetchConsumer c g) = obs cf now' s (FetchConsumer c g).
-Proof. exact delete_foreign_topic_keeps_nonempty_group. Qed.
-Print Assumptions C09_delete_foreign_topic_keeps_nonempty_group_partial.
+    obs cf now' s' (FetchConsumer c g) = obs cf now' s (FetchConsumer c g) /\
+    (forall t' x, In x (names (obs cf now' s' (FetchConsumersForTopic c t'))) <->
+                  In x (names (obs cf now' s (FetchConsumersForTopic c t')))).
+Proof. exact delete_foreign_topic_changes_nothing. Qed.
+Print Assumptions C09_delete_foreign_topic_changes_nothing.
+
+(* documentation of the behaviour before the repair: an owner-only group without topics was unlisted by deleting a topic it
+   never had; the repaired handler leaves it listed *)
+Theorem C09_delete_foreign_topic_unlists_group_before_fix :
+  run fg_cf (init_state [1]) [(1600000000, SetConsumerOwner 1 1 7 0 1 1)] = Some (fg_state, [RNone]) /\
+  absent_group_topic fg_state 1 1 5 /\
+  names (obs fg_cf 1600000000 fg_state (FetchConsumers 1)) = [1] /\
+  (exists st', delete_group_before_fix fg_state 1 1 5 = Done st' RNone /\
+               names (obs fg_cf 1600000000 st' (FetchConsumers 1)) = []) /\
+  names (obs fg_cf 1600000000 (after fg_cf 1600000000 fg_state (DeleteGroup 1 1 5)) (FetchConsumers 1)) = [1].
+Proof. exact delete_foreign_topic_unlists_group_before_fix. Qed.
+Print Assumptions C09_delete_foreign_topic_unlists_group_before_fix.
 
 (* ---------------------------------------------------------------------------------------------- *)
 (* histories: after the deletion, and until a later ingest re-creates the item, no reply mentions it *)
